@@ -182,7 +182,11 @@ def materialise(tree, shape, R, contents=None, pd=None):
             p = d + "/" + dd + "/" + shape.rn(NAMES[n])
             data = (contents or {}).get((i, n))
             if tree.get("dnull") and n in tree["dnull"][i - 1]:
-                s.append("symlink %s %s" % (hx("/dev/null"), hx(p)))       # a drop-in switched off by a link to /dev/null
+                # a drop-in switched off: by a link to /dev/null or, every second time, by an EMPTY regular file of that name
+                if (i + n + len(tree["main"])) % 2:
+                    s.append("symlink %s %s" % (hx("/dev/null"), hx(p)))
+                else:
+                    s.append("file %s x" % hx(p))
             else:
                 s.append("file %s %s" % (hx(p), hx(data if data is not None else body(i, n, dshape))))
             paths[p] = (i, n)
